@@ -186,7 +186,7 @@ func buildClientMethod(p *Program, fd *ast.FuncDecl, sig *types.Signature) *Clie
 	rc := &rmCtx{p: p, info: info, recv: recvObj(info, fd)}
 	ps := paramObjs(info, fd)
 	ctx, request := ps[0], ps[1]
-	list := fd.Body.List
+	list := mergeCommaOk(info, fd.Body.List)
 	i := 0
 	// request field selector: request.<Sec>.<F>
 	reqField := func(e ast.Expr) (sec string, fld *types.Var) {
